@@ -891,6 +891,12 @@ func (g *Gen) specCall(e *E, cx *Ctx) Val {
 			res.C = append(res.C, ite(c.C[0], a.C[i], b.C[i]))
 		}
 		return res
+	case "stringBytes": // the bytes of a string viewed as a []byte value (no copy): same base/off/len
+		x := arg(0)
+		if !isString(x.T) {
+			oos("stringBytes of non-string")
+		}
+		return Val{T: types.NewSlice(types.Typ[types.Uint8]), C: []Term{x.C[0], x.C[1], x.C[2], x.C[2]}}
 	case "base": // ghost: identity of the backing array of a slice
 		x := arg(0)
 		return Val{T: nil, C: []Term{x.C[0]}}
